@@ -61,7 +61,7 @@ def pick(rng, policy, enabled):
 def run_case(world, defs_yaml, wf_name, wf_input, oracle, rng, policy='random', max_steps=400,
              ops=None, dup_prob=0.0, evict=False, params=None, tick_integrity=False, wf_ex_id=None,
              snapshot_every=True):
-    """ops: list of {'at': step index, 'op': 'pause'|'resume'|'stop'|'rerun'|'skip'|'restart'|'tick',
+    """ops: list of {'at': step index, 'op': 'pause'|'resume'|'stop'|'rerun'|'skip'|'restart'|'update_def'|'tick',
                      ...args} injected before the delivery with that index.
     Returns Trace.  The schedule is recorded in world.log (replayable from the seed)."""
     tr = Trace()
@@ -154,6 +154,12 @@ def apply_op(world, tr, o, root):
         world.forget_broken()
     elif name == 'restart':
         world.restart()
+    elif name == 'update_def':
+        # the definition the execution was started from is replaced while it runs (PUT /v2/workflows)
+        from mistral import context as auth_context
+        from mistral.services import workflows as wf_service
+        auth_context.set_ctx(world.ctx)
+        wf_service.update_workflows(o['yaml'])
     elif name == 'poll':
         world.poll_store()
     elif name == 'tick':
